@@ -91,6 +91,7 @@ func New[T any](
 	tree.node.handlers = map[string]T{
 		http.MethodOptions: tree.optionsBuilder(tree.node),
 	}
+	tree.buildMethods(0)
 
 	if lock {
 		tree.locker = &sync.RWMutex{}
